@@ -457,4 +457,27 @@ def R7_cross_checks(run):
     C05.R2_one_delta(RuleProxy(run, 'R7'))
 
 
-RULES = [R1_wrap_discipline, R2_flip_on_cross, R3_init_convention, R4_inside, R5_credit, R6_swap_growth_handoff, R7_cross_checks]
+def R8_settle_always(run):
+    run.title("R8", "calculate_fee_and_reward_growths (both): whatever the current tick, the position is settled - the inside growths are computed and the position update "
+                    "built from them on every successful path (fees earned before the price left the range are credited when the position is next touched, "
+                    "also through update_fees_and_rewards)")
+    facts = run.facts
+    for wrapper, inner, pre in (("manager::liquidity_manager::calculate_fee_and_reward_growths", "manager::liquidity_manager::_calculate_modify_liquidity", ""),
+                                (PM + "pino_calculate_fee_and_reward_growths", PM + "_pino_calculate_modify_liquidity", "pino_")):
+        w = facts.need_fn(wrapper)
+        run.touch(w)
+        cs = [bi for bi, t in w.calls() if callee_path(t) == inner and not w.blocks[bi]["c"]]
+        ok = len(cs) == 1 and not cfg.success_reach(w, 0, cut_blocks=cs)
+        run.check("R8", "settles@" + wrapper.rsplit("::", 1)[-1], ok, "%s can succeed without going through %s" % (wrapper, inner.rsplit("::", 1)[-1]), loc=w.loc(),
+                  detail="%s(.., delta 0, ..) on every successful path" % inner.rsplit("::", 1)[-1])
+        fn = facts.need_fn(inner)
+        run.touch(fn)
+        short = inner.rsplit("::", 1)[-1]
+        for name in ("next_fee_growths_inside", "next_reward_growths_inside", "next_position_modify_liquidity_update"):
+            cs = [bi for bi, t in fn.calls() if (callee_path(t) or "").rsplit("::", 1)[-1] == pre + name and not fn.blocks[bi]["c"]]
+            ok = len(cs) == 1 and not cfg.success_reach(fn, 0, cut_blocks=cs)
+            run.check("R8", "%s@%s" % (name, short), ok, "%s can succeed without calling %s%s (%d call sites)" % (inner, pre, name, len(cs)), loc=fn.loc(),
+                      detail="%s%s on every successful path" % (pre, name))
+
+
+RULES = [R1_wrap_discipline, R2_flip_on_cross, R3_init_convention, R4_inside, R5_credit, R6_swap_growth_handoff, R7_cross_checks, R8_settle_always]
